@@ -24,7 +24,7 @@ Extraction "extract/model.ml"
   Rfc9535.nodelist Rfc9535.query_nodes Rfc9535.rfc_compare Rfc9535.l_test Rfc9535.rfc_slice_indices
   Rfc9535Typing.std_query Rfc9535Typing.ext_query
   NormPath.normpath NormPath.valid_normpath
-  Lex.tokenize Parse.compile Parse.fn_sig Serialize.query_text Cache.finditer_c Cache.cacheable Cache.any_cacheable Cache.volatile
+  Lex.tokenize Parse.compile Parse.fn_sig Serialize.query_text Cache.finditer_c Cache.cache_positions Cache.cacheable Cache.any_cacheable Cache.volatile
   TokPrint.query_toks TokPrint.norm_query Parse.compile_tokens
   Gate.gate_query Cli.cli_run Cli.attrs_defined CliSpec.demanded CliSpec.rejections
   Project.select Project.select_one ProjectSpec.project_tree ProjectSpec.selections_ok ProjectSpec.project_flat ProjectSpec.project_root.
